@@ -490,7 +490,7 @@ def rule_f7(ctx):
             res.ok({"function": cands[0]["id"], "verdict": "Ok only on the errors.is_empty() edge"})
         else:
             res.bad(Finding("F7", cands[0]["id"], "Ok despite recorded errors", "the result is Ok on a path on which errors.is_empty() was not established", cands[0]["sp"]))
-    if n < 15:
+    if (n < 15) and not res.findings:
         raise AnchorMissing("F7: only %d explicit Err(()) returns found in parse.rs (25 on the pinned tree)" % n)
     return res
 
@@ -522,7 +522,7 @@ def rule_f8(ctx):
             else:
                 res.bad(Finding("F8", f["id"], "child parsed as an expression in literal mode",
                                 "a child of a literal is parsed with parse_expr whatever only_literal_children says: into_literal panics on the non-literal child", t["sp"]))
-    if n < 5:
+    if (n < 5) and not res.findings:
         raise AnchorMissing("F8: expected the child sites of parse_literal, found %d" % n)
     return res
 
@@ -585,7 +585,7 @@ def rule_f10(ctx):
             else:
                 res.bad(Finding("F10", f["id"], site + " without an in-bounds test",
                                 "an index written in the program text is used without a dominating `index < len` (a boundary value makes the type checker panic)", t["sp"]))
-    if n < 2:
+    if (n < 2) and not res.findings:
         raise AnchorMissing("F10: expected the tuple-accessor index sites of check.rs, found %d" % n)
     return res
 
